@@ -1142,8 +1142,11 @@ impl<
     ) -> usize {
         let lookahead = self.specialization.StoreLookahead();
         if ix_end >= ix_start + lookahead * 2 && lookahead == 4 {
-            let num = self.num.slice_mut();
-            let buckets = self.buckets.slice_mut();
+            // an allocator may hand out cells longer than requested (alloc_no_stdlib's
+            // StackAllocator does): work on exactly the table, do not demand an exact length
+            let num = &mut self.num.slice_mut()[..self.specialization.bucket_size() as usize];
+            let buckets = &mut self.buckets.slice_mut()[..self.specialization.bucket_size() as usize
+                * self.specialization.block_size() as usize];
             assert_eq!(num.len(), self.specialization.bucket_size() as usize);
             assert_eq!(
                 buckets.len(),
@@ -1232,8 +1235,11 @@ impl<
             assert_eq!(lookahead4, lookahead);
             let mut data64 = [0u8; REG_SIZE + lookahead4 - 1];
             let del = (ix_end - ix_start) / REG_SIZE;
-            let num = self.num.slice_mut();
-            let buckets = self.buckets.slice_mut();
+            // an allocator may hand out cells longer than requested (alloc_no_stdlib's
+            // StackAllocator does): work on exactly the table, do not demand an exact length
+            let num = &mut self.num.slice_mut()[..self.specialization.bucket_size() as usize];
+            let buckets = &mut self.buckets.slice_mut()[..self.specialization.bucket_size() as usize
+                * self.specialization.block_size() as usize];
             assert_eq!(num.len(), self.specialization.bucket_size() as usize);
             assert_eq!(
                 buckets.len(),
@@ -1320,8 +1326,11 @@ impl<
             assert_eq!(lookahead4, lookahead);
             let mut data64 = [0u8; REG_SIZE + lookahead4];
             let del = (ix_end - ix_start) / REG_SIZE;
-            let num = self.num.slice_mut();
-            let buckets = self.buckets.slice_mut();
+            // an allocator may hand out cells longer than requested (alloc_no_stdlib's
+            // StackAllocator does): work on exactly the table, do not demand an exact length
+            let num = &mut self.num.slice_mut()[..self.specialization.bucket_size() as usize];
+            let buckets = &mut self.buckets.slice_mut()[..self.specialization.bucket_size() as usize
+                * self.specialization.block_size() as usize];
             assert_eq!(num.len(), self.specialization.bucket_size() as usize);
             assert_eq!(
                 buckets.len(),
@@ -1404,8 +1413,11 @@ impl<
             assert_eq!(lookahead4, lookahead);
             let mut data64 = [0u8; REG_SIZE + lookahead4];
             let del = (ix_end - ix_start) / REG_SIZE;
-            let num = self.num.slice_mut();
-            let buckets = self.buckets.slice_mut();
+            // an allocator may hand out cells longer than requested (alloc_no_stdlib's
+            // StackAllocator does): work on exactly the table, do not demand an exact length
+            let num = &mut self.num.slice_mut()[..self.specialization.bucket_size() as usize];
+            let buckets = &mut self.buckets.slice_mut()[..self.specialization.bucket_size() as usize
+                * self.specialization.block_size() as usize];
             assert_eq!(num.len(), self.specialization.bucket_size() as usize);
             assert_eq!(
                 buckets.len(),
